@@ -832,6 +832,8 @@ package decimal
 //@   ensures[finite,C20] x.form == finite ==> result0 == x.mant && result1 == x.exp
 //@   ensures[other,C20] x.form != finite ==> len(result0) == 0
 
+//@ define clampv(e) = (e > 1099511627776 ? 1099511627776 : e < 0 - 1099511627776 ? 0 - 1099511627776 : e)
+
 //@ func (z *Decimal) setBits64(neg bool, x uint64, exp int64) *Decimal
 //@   requires[wf] z != nil && z.mode <= 5
 //@   modifies z.prec, z.acc, z.form, z.neg, z.exp, z.mant, memcap(z.mant)
@@ -841,7 +843,17 @@ package decimal
 //@   ensures[zero,C14,C02] x == 0 ==> z.form == zero && z.acc == 0
 //@   ensures[nonzero,C14] x != 0 ==> z.form != zero || z.acc != 0
 //@   ensures[range,C14,C02] x != 0 ==> (exp > MaxExp ==> z.form == inf && z.acc == (neg ? 0 - 1 : 1)) && (exp < MinExp - 40 ==> z.form == zero && z.acc == (neg ? 1 : 0 - 1))
+//@   ghost gL, gs
+//@   ensures[norm,C14] x != 0 ==> 1 <= gL && gL <= 2 && 0 <= gs && gs <= 18 && P(gL) <= 10*(x*p10(gs)) && x*p10(gs) < P(gL)
+//@   ensures[value,C14,C02] x != 0 ==> roundspec(z, x*p10(gs), gL, clampv(exp) + 19*gL - gs, false)
 //@   ensures[valid,C08] valid(z)
+//@   hint[after:dnorm#1] bind(gs, result)
+//@   hint[after:dnorm#1] bind(gL, len(z.mant))
+//@   hint[after:dnorm#1] V_top(z.mant, 0, len(z.mant))
+//@   hint[after:dnorm#1] V_bounds(z.mant, 0, len(z.mant))
+//@   hint[after:dnorm#1] mul_mono(B/10, z.mant[len(z.mant)-1], P(len(z.mant)-1))
+//@   hint[after:dnorm#1] Pdef(len(z.mant)-1)
+//@   hint[after:dnorm#1] assert(V(z.mant) == x*p10(result))
 //@   tags safety C04,C14
 //@   tags support C14,C08
 
@@ -852,7 +864,12 @@ package decimal
 //@   ensures[prec,C09] z.prec == (old(z.prec) == 0 ? DefaultDecimalPrec : old(z.prec))
 //@   ensures[sign,C14] z.neg == (x < 0)
 //@   ensures[zero,C14,C02] x == 0 ==> z.form == zero && z.acc == 0
+//@   ghost gL, gs
+//@   ensures[norm,C14] x != 0 ==> 1 <= gL && gL <= 2 && 0 <= gs && gs <= 18 && P(gL) <= 10*((x < 0 ? 0 - x : x)*p10(gs)) && (x < 0 ? 0 - x : x)*p10(gs) < P(gL)
+//@   ensures[value,C14,C02] x != 0 ==> roundspec(z, (x < 0 ? 0 - x : x)*p10(gs), gL, 19*gL - gs, false)
 //@   ensures[valid,C08] valid(z)
+//@   hint[after:setBits64#1] bind(gL, ghost_gL)
+//@   hint[after:setBits64#1] bind(gs, ghost_gs)
 //@   tags safety C04,C14
 
 //@ func (z *Decimal) SetUint64(x uint64) *Decimal
@@ -862,7 +879,12 @@ package decimal
 //@   ensures[prec,C09] z.prec == (old(z.prec) == 0 ? DefaultDecimalPrec : old(z.prec))
 //@   ensures[sign,C14] z.neg == false
 //@   ensures[zero,C14,C02] x == 0 ==> z.form == zero && z.acc == 0
+//@   ghost gL, gs
+//@   ensures[norm,C14] x != 0 ==> 1 <= gL && gL <= 2 && 0 <= gs && gs <= 18 && P(gL) <= 10*(x*p10(gs)) && x*p10(gs) < P(gL)
+//@   ensures[value,C14,C02] x != 0 ==> roundspec(z, x*p10(gs), gL, 19*gL - gs, false)
 //@   ensures[valid,C08] valid(z)
+//@   hint[after:setBits64#1] bind(gL, ghost_gL)
+//@   hint[after:setBits64#1] bind(gs, ghost_gs)
 //@   tags safety C04,C14
 
 //@ func NewDecimal(x int64, exp int) *Decimal
@@ -870,7 +892,12 @@ package decimal
 //@   ensures[attrs,C14] result.prec == DefaultDecimalPrec && result.mode == ToNearestEven && result.neg == (x < 0)
 //@   ensures[zero,C14,C02] x == 0 ==> result.form == zero && result.acc == 0
 //@   ensures[range,C14,C02] x != 0 ==> (exp > MaxExp ==> result.form == inf && result.acc == (x < 0 ? 0 - 1 : 1)) && (exp < MinExp - 40 ==> result.form == zero && result.acc == (x < 0 ? 1 : 0 - 1))
+//@   ghost gL, gs
+//@   ensures[norm,C14] x != 0 ==> 1 <= gL && gL <= 2 && 0 <= gs && gs <= 18 && P(gL) <= 10*((x < 0 ? 0 - x : x)*p10(gs)) && (x < 0 ? 0 - x : x)*p10(gs) < P(gL)
+//@   ensures[value,C14,C02] x != 0 ==> roundspec(result, (x < 0 ? 0 - x : x)*p10(gs), gL, exp + 19*gL - gs, false)
 //@   ensures[valid,C08] valid(result)
+//@   hint[after:setBits64#1] bind(gL, ghost_gL)
+//@   hint[after:setBits64#1] bind(gs, ghost_gs)
 //@   tags safety C04,C14
 
 //@ func (z dec) setUint64(x uint64) dec
